@@ -695,6 +695,11 @@ func (x *Exec) alloc(st *State, t types.Type, init Term) Term {
 	} else {
 		h := x.vc.objHeap(t)
 		x.setHeap(st, h, store(x.heap(st, h), ref, init))
+		// a new strings.Builder / bytes.Buffer is empty (ghost content, see libmodel.go)
+		if k := typeKey(t); k == "strings.Builder" || k == "bytes.Buffer" {
+			bh := heapID{"BUF_content", arraySort(SInt, SString)}
+			x.setHeap(st, bh, store(x.heap(st, bh), ref, strLit("")))
+		}
 	}
 	return ref
 }
@@ -1384,7 +1389,7 @@ func (x *Exec) freshOnlyWrites(fr *Frame, blocks []*ssa.BasicBlock, heapName str
 					if c := x.eng.Contracts[callee]; c != nil && (c.Pure || (c.HasMod && len(c.Modifies) == 0)) {
 						continue
 					}
-					if x.isPureExternal(callee) || isIntrinsic(callee) {
+					if x.isPureExternal(callee) || isIntrinsic(callee) || libNoWrite(callee.String()) {
 						continue
 					}
 				}
@@ -1396,7 +1401,23 @@ func (x *Exec) freshOnlyWrites(fr *Frame, blocks []*ssa.BasicBlock, heapName str
 }
 
 func (x *Exec) storeMayTouch(addr ssa.Value, heapName string) bool {
-	// conservative: any heap store may touch any heap of matching kind
+	// a store through an element address of a slice value writes the backing-array heap of the
+	// slice's element type and nothing else; anything else is treated conservatively
+	v := addr
+	for depth := 0; depth < 8; depth++ {
+		switch a := v.(type) {
+		case *ssa.FieldAddr:
+			v = a.X
+			continue
+		case *ssa.IndexAddr:
+			if sl, ok := underlying(a.X.Type()).(*types.Slice); ok {
+				return x.vc.arrHeap(sl.Elem()).name == heapName
+			}
+			v = a.X
+			continue
+		}
+		break
+	}
 	return true
 }
 
